@@ -172,6 +172,51 @@ Theorem C02_stored_entries_read_back_through_the_file :
     read_entry store ly e = (None, shown row).
 Proof. exact stored_entries_read_back_through_the_file. Qed.
 
+Theorem C02_stored_variant_entries_read_back_through_the_file :
+  forall f base h dh vptrs eptrs iptrs store common vshapes vsize (rows : list vrow) k so j r,
+  dir_pack_at f base h dh vptrs eptrs iptrs ->
+  Forall (vrow_has_shape store common vshapes vsize) rows -> nth_error rows j = Some r ->
+  (N.of_nat (length rows) < 2 ^ 32)%N -> vshapes <> [] -> length vshapes <= 255 ->
+  length (common ++ variant_descrs vshapes) <= 255 ->
+  (N.of_nat (psize (raws common) + 1 + vsize) < 65536)%N ->
+  Forall wf_wprop (common ++ variant_descrs vshapes) -> no_vid common ->
+  Forall (fun v => no_vid (snd v) /\ psize (raws (snd v)) = vsize) vshapes ->
+  let tail := ser_variant_tail (N.of_nat (length rows)) (psize (raws common) + 1 + vsize) common vshapes in
+  let data := concat (map ser_vrow rows) in
+  nth_error eptrs k = Some so -> wf_sized_offset so -> so_size so = lenN tail ->
+  placed f (base + so_off so)%N tail -> (lenN data + 4 <= so_off so)%N -> placed f (base + so_off so - lenN data - 4)%N data ->
+  exists d ly dat e,
+    run f (dp_open_p base) = Ok d /\
+    run f (dp_entry_store_p d (N.of_nat k)) = Ok (ly, dat) /\
+    entry_bytes ly dat (N.of_nat j) = Some e /\
+    read_entry store ly e = (Some (N.of_nat (vr_vid r)), shown (vr_common r) ++ shown (vr_var r)).
+Proof. exact stored_variant_entries_read_back_through_the_file. Qed.
+
+(* value stores through the file: the bytes the writer put under a key (plain: offset and length; indexed: rank) *)
+Theorem C02_plain_value_reads_back_through_the_file :
+  forall f base h dh vptrs eptrs iptrs (vals : list (list N)) k so i v,
+  dir_pack_at f base h dh vptrs eptrs iptrs ->
+  nth_error vals i = Some v -> (lenN (concat vals) < 2 ^ 64)%N ->
+  let tail := ser_vs_tail_plain (lenN (concat vals)) in
+  nth_error vptrs k = Some so -> wf_sized_offset so -> so_size so = lenN tail ->
+  placed f (base + so_off so)%N tail -> (lenN (concat vals) + 4 <= so_off so)%N ->
+  placed f (base + so_off so - lenN (concat vals) - 4)%N (concat vals) ->
+  exists d s, run f (dp_open_p base) = Ok d /\ run f (dp_value_store_p d (N.of_nat k)) = Ok s /\
+              vs_get s (lenN (concat (firstn i vals))) (Some (lenN v)) = Ok v.
+Proof. exact plain_value_reads_back_through_the_file. Qed.
+Theorem C02_indexed_value_reads_back_through_the_file :
+  forall f base h dh vptrs eptrs iptrs (vals : list (list N)) w k so i v,
+  dir_pack_at f base h dh vptrs eptrs iptrs ->
+  nth_error vals i = Some v ->
+  1 <= w <= 8 -> (N.of_nat (length vals) <= 65535)%N -> (lenN (concat vals) < 256 ^ N.of_nat w)%N ->
+  let tail := ser_vs_tail_indexed w (map lenN vals) in
+  nth_error vptrs k = Some so -> wf_sized_offset so -> so_size so = lenN tail ->
+  placed f (base + so_off so)%N tail -> (lenN (concat vals) + 4 <= so_off so)%N ->
+  placed f (base + so_off so - lenN (concat vals) - 4)%N (concat vals) ->
+  exists d s, run f (dp_open_p base) = Ok d /\ run f (dp_value_store_p d (N.of_nat k)) = Ok s /\
+              vs_get s (N.of_nat i) None = Ok v.
+Proof. exact indexed_value_reads_back_through_the_file. Qed.
+
 Print Assumptions C02_every_entry_reads_back.
 Print Assumptions C02_written_descriptors_parse_to_the_layout.
 Print Assumptions C02_unsigned_field.
@@ -195,3 +240,6 @@ Print Assumptions C02_index_window_inside.
 Print Assumptions C02_every_variant_entry_reads_back.
 Print Assumptions C02_written_variant_descriptors_parse_to_the_layout.
 Print Assumptions C02_stored_entries_read_back_through_the_file.
+Print Assumptions C02_stored_variant_entries_read_back_through_the_file.
+Print Assumptions C02_plain_value_reads_back_through_the_file.
+Print Assumptions C02_indexed_value_reads_back_through_the_file.
